@@ -94,23 +94,46 @@ theorem exit_unblocked : ∃ sched s, run (init d19Cfg) sched = some s ∧ s.cpc
   exit_unblocked_aux
 
 /-- the loop of stop orders is left early only when nobody is left: a step of the consumer at a stop order on a full work
-queue (in a reachable state, any configuration, faults included) ends `__exit__` and every worker ever created has
-exited -/
-theorem exit_skip_all_exited (cfg : Cfg) (s s' : St) (h : Reach cfg s) (i : Nat) (hpc : s.cpc = .exitPut i)
-    (hfull : capFull s.cfg.workCap s.workQ = true) (hs : step s .c = some s') : s'.cpc = .done ∧ AllExited s' := by
-  obtain ⟨hL, _⟩ := LInv_reach h
+queue (in a reachable state, any configuration — faults and join timeout included) ends `__exit__`; every listed worker has
+an exit code, and every other worker ever created has exited or (only with a finite join timeout) has nothing but its
+`end()` left to run -/
+theorem exit_skip_all_gone (cfg : Cfg) (s s' : St) (h : Reach cfg s) (i : Nat) (hpc : s.cpc = .exitPut i)
+    (hfull : capFull s.cfg.workCap s.workQ = true) (hs : step s .c = some s') :
+    s'.cpc = .done ∧ (∀ wid ∈ s'.procs, workerExited s' wid = true) ∧
+    ∀ w ∈ s'.workers, w.pc = .exited ∨ (w.pc = .ending ∧ w.wid ∉ s'.procs ∧ cfg.joinTimeout = true) := by
+  obtain ⟨hL, hc⟩ := LInv_reach h
   have hs : stepC s = some s' := hs
   unfold stepC at hs
   simp only [hpc, hfull, if_true] at hs
   split at hs
   · rename_i hall
     simp only [Option.some.injEq] at hs; subst hs
-    refine ⟨rfl, ?_⟩
+    refine ⟨rfl, fun wid hwid => List.all_eq_true.1 hall wid hwid, ?_⟩
     intro w hw
     have hw : w ∈ s.workers := hw
-    by_cases hne : w.pc = .exited
-    · exact hne
-    · exact workerExited_all hL (List.all_eq_true.1 hall w.wid (hL.listed w hw hne)) w hw rfl
+    by_cases hin : w.wid ∈ s.procs
+    · left
+      have := List.all_eq_true.1 hall w.wid hin
+      unfold workerExited at this
+      rw [getWorker_of_mem hL.nodup hw] at this
+      simpa using this
+    · have hg : gone w.pc = true := by
+        cases hg : gone w.pc
+        · exact absurd (hL.listed w hw hg) hin
+        · rfl
+      cases hp : w.pc <;> rw [hp] at hg <;> first | (left; rfl) | (right; exact ⟨rfl, hin, by rw [← hc]; exact (hL.wk w hw).ending hp⟩) | cases hg
   · cases hs
+
+/-- … in a pool WITHOUT a join timeout (`join_timeout=None`): every worker ever created has exited.  (With a finite join
+timeout a replaced worker may still be in its `end()`: `exit_skip_running_worker` in `Proofs/PoolJoinTimeout.lean`.) -/
+theorem exit_skip_all_exited (cfg : Cfg) (hjt : cfg.joinTimeout = false) (s s' : St) (h : Reach cfg s) (i : Nat)
+    (hpc : s.cpc = .exitPut i) (hfull : capFull s.cfg.workCap s.workQ = true) (hs : step s .c = some s') :
+    s'.cpc = .done ∧ AllExited s' := by
+  obtain ⟨h1, _, h3⟩ := exit_skip_all_gone cfg s s' h i hpc hfull hs
+  refine ⟨h1, ?_⟩
+  intro w hw
+  rcases h3 w hw with h | ⟨_, _, h⟩
+  · exact h
+  · rw [hjt] at h; cases h
 
 end WindVerif.Pool
